@@ -59,6 +59,12 @@ CHECKS = {
         text="Bounded model checking over the environment: for every HIDDEN/PRIVATE/PUBLIC assignment to 6 (8) objects of a fixed 11-object project, (a) isVisible equals 'no hidden ancestor-or-self', the listing helpers (submodules, class_members, inherited_members, overriding_subclasses, findRootClasses), css_class and taglink respect it; (b) the project is rendered by the real writer (classic theme; thorough: 3 themes) and the output has no page, anchor, inventory line, search document or hyperlink for any hidden object, every listing entry (sidebar, member table, member details, module index, search documents) of a PRIVATE object carries the private marker, and every visible object has its page/anchor.",
         note="Trusted: CrossHair exhaustion verdict; html.parser; the fixed project (lib/minimodel.py). CrossHair runs with file-system side effects unblocked for the rendering harness (writes only under its own mkdtemp). Privacy produced by real rules is C13's subject.",
     ),
+    "C08": dict(
+        level="model_checking", design="DESIGN.md §3 C08",
+        technique="CrossHair (z3) exhaustion of a fault schedule: stub docstring parser / ParsedDocstring whose failures (which exception, at which call) are the variables, under the real wrapper layer of epydoc2stan",
+        text="Bounded model checking against an arbitrary environment: for every parser behaviour (success, ParseError, recoverable errors, 11 exception classes) x to_stan behaviour (11 exception classes x failing always / first call / second call / summary first) x to_node (ok / NotImplementedError) x docformat x process-types x docstring (x object kind, thorough): format_docstring/format_summary/format_toc return, the complete original text is shown after a fatal failure, the failure is reported against the object, parse_errors records it, no message is repeated, and a second object is unaffected. The behaviour of the real parsers on arbitrary text (the 'for all strings' half of the statement) is NOT decided.",
+        note="Trusted: CrossHair exhaustion verdict; the fault model is the documented contract of parser functions / ParsedDocstring (to_node raises NotImplementedError only). Stub installed by replacing epydoc2stan.get_parser_by_name.",
+    ),
 }
 
 NOT_APPLICABLE = {
